@@ -71,6 +71,8 @@ pub struct LoopSnap {
     pub states: Vec<u8>,
     /// want, ready, queued, running, done, failed.
     pub counts: [usize; 6],
+    /// `StateCounts::total()` as the progress display sees it.
+    pub total: usize,
     pub total_pending: usize,
     /// (name, running, depth, queued)
     pub pools: Vec<(String, usize, usize, usize)>,
